@@ -32,7 +32,7 @@ from .isolate import HarnessError
 from .util import cjson, fingerprint
 
 VERIF = os.path.dirname(os.path.dirname(os.path.dirname(os.path.abspath(__file__))))
-REPLAYS = os.path.join(VERIF, "replays")
+REPLAYS = os.environ.get("VERIF_REPLAYS") or os.path.join(VERIF, "replays")  # VERIF_REPLAYS: several checks side by side (tools)
 EVIDENCE = os.path.join(VERIF, "evidence")
 KNOWN = os.path.join(VERIF, "known_findings.json")
 
